@@ -18,6 +18,6 @@ try:
 except Exception as e:
     print('DETERMINISM %s exit=%s no evidence (%s)'%(id,rc,e))
 PY
-	grep -E "HARNESS-PROBLEM" /tmp/det-$id.log | cut -c1-300
+	grep -E "HARNESS-PROBLEM|VIOLATION|class=" /tmp/det-$id.log | cut -c1-300; mkdir -p /tmp/det-keep; cp /tmp/det-out/replays/$id/violation-* /tmp/det-keep/ 2>/dev/null
 done
 rm -rf /tmp/det-out
